@@ -87,6 +87,17 @@ LoseHalt ==
   /\ last' = [op |-> "losehalt", res |-> "none"]
   /\ H("losehalt")
 
+\* ... or until the holder gives the lock back and the answer to its release is lost (timeout, connection
+\* reset): the primary has ended the lock, the holder was told nothing. ReleaseRemoteHaltLock clears the
+\* holder's own record of the lock before it talks to the primary, so the node is a plain replica again
+\* whatever becomes of the request.
+ReleaseLost ==
+  /\ role = "holder" /\ ~exited /\ ps = "idle"
+  /\ role' = "exholder"
+  /\ UNCHANGED <<mode, ps, walc, img, pos, logn, exited>>
+  /\ last' = [op |-> "releaselost", res |-> "none"]
+  /\ H("releaselost")
+
 (* ---- LiteFS's reaction to an operation on a node without authority (guard table) ---- *)
 \* "eacces": refused with the read-only permission error; "refused": refused with another error;
 \* "harmless": accepted, changes neither image nor position nor log; "exit": refused by stopping the node;
@@ -131,7 +142,7 @@ Attempt(op) ==
      /\ UNCHANGED <<mode, ps, role, pos, logn>>
      /\ H(op)
 
-Next == \/ Advance \/ LoseAuthority \/ AcquireHalt \/ LoseHalt
+Next == \/ Advance \/ LoseAuthority \/ AcquireHalt \/ LoseHalt \/ ReleaseLost
         \/ \E op \in Ops : /\ Attempt(op)
                             /\ (Emit => PrintT("EDGE " \o ToJson([mode |-> mode, ps |-> ps, walc |-> walc, role |-> role,
                                                                   path |-> hist, op |-> op, res |-> last'.res])))
